@@ -1,6 +1,7 @@
 package rules
 
 import (
+	"go/types"
 	"fmt"
 	"go/token"
 	"sort"
@@ -91,7 +92,28 @@ func jobKind(job ssa.Value, st *an.State) string {
 
 // runEvent labels an instruction of pkg/runner; "" = not an event. errs
 // reports which value(s) carry the event's error.
+// gateSelect: sel polls the Done channel of the runner's context (a non-blocking "has the runner been cancelled?");
+// it returns the index of that case, or -1.
+func gateSelect(sel *ssa.Select) int {
+	ctxField := resolveRunnerState(an.CurrentProg).ctx
+	for i, stt := range sel.States {
+		if stt.Dir != types.RecvOnly {
+			continue
+		}
+		for _, src := range an.Sources(stt.Chan) {
+			call, ok := src.(*ssa.Call)
+			if ok && call.Call.IsInvoke() && call.Call.Method.Name() == "Done" && an.FieldProv(call.Call.Value) == ctxField {
+				return i
+			}
+		}
+	}
+	return -1
+}
+
 func runEvent(in ssa.Instruction, st *an.State) string {
+	if sel, ok := in.(*ssa.Select); ok && !sel.Blocking && gateSelect(sel) >= 0 {
+		return "gate"
+	}
 	switch x := in.(type) {
 	case *ssa.Store:
 		if fa, ok := x.Addr.(*ssa.FieldAddr); ok && an.TypeIs(fa.X.Type(), "pkg/task", "Task") {
@@ -181,9 +203,13 @@ type runPath struct {
 }
 
 // traceRun explores Run for one row.
+// staleWorld makes traceRun start from a task whose result flags are still set from an earlier run.
+var staleWorld bool
+
 func traceRun(c *an.Ctx, run *ssa.Function, task *ssa.Parameter, row runRow) []runPath {
+	stale := staleWorld
 	p := c.P
-	ex := &an.Explorer{P: p, NoReturn: noReturn, MaxDepth: 4, MaxVisits: 2,
+	ex := &an.Explorer{P: p, NoReturn: noReturn, MaxDepth: 4, MaxVisits: 3,
 		Inline: func(f *ssa.Function) bool {
 			o := an.Outer(f)
 			return o.Pkg == run.Pkg && f != run && an.Short(f) != fnCtxUp && an.Short(f) != fnCtxBefore && an.Short(f) != fnCtxAfter && an.Short(f) != fnCtxDown &&
@@ -214,8 +240,24 @@ func traceRun(c *an.Ctx, run *ssa.Function, task *ssa.Parameter, row runRow) []r
 		return ev, true
 	}
 	ex.AtomSt = func(v ssa.Value, st *an.State) (an.AVal, bool) {
+		// the cancellation test written as a poll of ctx.Done(): the case is taken iff the runner is cancelled
+		if e, ok := v.(*ssa.Extract); ok && e.Index == 0 {
+			if sel, ok := e.Tuple.(*ssa.Select); ok && !sel.Blocking {
+				if k := gateSelect(sel); k >= 0 {
+					if row.fail == "gate" {
+						return an.AInt(int64(k)), true
+					}
+					return an.AInt(-1), true
+				}
+			}
+		}
 		if ev, ok := errOfEvent(v, st); ok {
 			if ev == row.fail {
+				// the first occurrence on the path is the one that fails: what follows it (a loop that goes on to the
+				// next command instead of stopping, say) succeeds, so that a failure forgotten by a later success shows
+				if ev != "gate" && count(st.Effects(), ev) > 1 {
+					return an.AVal{K: an.ANil}, true
+				}
 				return an.AVal{K: an.ANonNil}, true
 			}
 			return an.AVal{K: an.ANil}, true
@@ -239,9 +281,9 @@ func traceRun(c *an.Ctx, run *ssa.Function, task *ssa.Parameter, row runRow) []r
 				// nothing outside TaskRunner.Run writes them)
 				switch an.AccessPath(fa).LastField() {
 				case "Errored":
-					return an.ABool(has(st.Effects(), "errored")), true
+					return an.ABool(stale || has(st.Effects(), "errored")), true
 				case "Skipped":
-					return an.ABool(has(st.Effects(), "skip")), true
+					return an.ABool(stale || has(st.Effects(), "skip")), true
 				}
 			}
 		}
@@ -475,12 +517,15 @@ func checkRunTable(c *an.Ctx, rule string, want map[string]bool) {
 				case "before command fails":
 					after := false
 					for _, e := range ev {
-						if e == row.fail {
+						if e == row.fail && !after {
 							after = true
 							continue
 						}
 						if r, _ := rankOf(e); after && r >= 4 && r < 10 {
 							note("after a before command failed, %s still runs", e)
+						}
+						if after && e == row.fail {
+							note("after a before command failed, a further before command is executed")
 						}
 					}
 					if pth.ret.K != an.ANonNil {
@@ -676,4 +721,57 @@ func ccCommandKind(call *ssa.Call, st *an.State) string {
 		}
 	}
 	return "?"
+}
+
+// freshRun: what a run does is decided by this run alone. A task object can be run more than once (named twice on
+// the command line, run directly after a pipeline, fired again by a watcher) and its result flags are never
+// reset, so the table's first row is explored a second time from a task whose Skipped and Errored flags are still
+// set from an earlier run: the sequence of phases must be the same.
+func freshRun(c *an.Ctx, rule string) {
+	run := c.P.Func("pkg/runner", "TaskRunner", "Run")
+	if run == nil {
+		c.Und(rule, "runner.(*TaskRunner).Run", token.NoPos, "TaskRunner.Run not found")
+		return
+	}
+	var task *ssa.Parameter
+	for _, prm := range run.Params {
+		if an.TypeIs(prm.Type(), "pkg/task", "Task") {
+			task = prm
+		}
+	}
+	row := runRows()[0]
+	phases := func(ps []runPath) []string {
+		seen := map[string]bool{}
+		var out []string
+		for _, pth := range ps {
+			if pth.end == "bound" {
+				continue
+			}
+			var ev []string
+			for _, e := range pth.events {
+				if r, ok := rankOf(e); ok && r >= 1 && r < 10 && !strings.HasPrefix(e, "exitcode:=") && e != "errored" && e != "skip" {
+					ev = append(ev, e)
+				}
+			}
+			k := strings.Join(ev, ",") + "→" + pth.ret.String()
+			if !seen[k] {
+				seen[k] = true
+				out = append(out, k)
+			}
+		}
+		sort.Strings(out)
+		return out
+	}
+	staleWorld = false
+	clean := phases(traceRun(c, run, task, row))
+	staleWorld = true
+	dirty := phases(traceRun(c, run, task, row))
+	staleWorld = false
+	same := len(clean) == len(dirty) && len(clean) > 0
+	for i := range clean {
+		if i < len(dirty) && clean[i] != dirty[i] {
+			same = false
+		}
+	}
+	c.Check(same, rule, an.Short(run)+":fresh-run", run.Pos(), fmt.Sprintf("the phases of a run do not depend on result flags an earlier run left in the task (%d paths either way)", len(clean)), fmt.Sprintf("Run behaves differently for a task whose Skipped/Errored flags are still set from an earlier run (phases %v instead of %v): a task that was skipped or failed once does nothing, or something else, when it is run again", dirty, clean))
 }
